@@ -10,6 +10,7 @@ package main
 //                  test files and for generated programs: stdout, values+types, error line  [search]
 
 import (
+	"math"
 	"bytes"
 	"fmt"
 	"go/ast"
@@ -204,6 +205,9 @@ func (c *Ctx) c02Rules() error {
 			goat.NewSlice(goat.TypeInt32, []goat.Value{goat.Int(1), goat.Int(2), goat.Int(3)}),
 			goat.NewMap(goat.TypeString, goat.TypeInt32, []goat.Value{goat.String("ga"), goat.Int(9)}),
 			goat.NewMap(goat.TypeInt32, goat.TypeInt32, []goat.Value{goat.Int(1), goat.Int(11)}),
+			goat.NewMap(goat.TypeUint32, goat.TypeInt32, []goat.Value{goat.Uint32(3000000000), goat.Int(12), goat.Uint32(2), goat.Int(13)}),
+			goat.NewMap(goat.TypeFloat64, goat.TypeInt32, []goat.Value{goat.Float64(3000000000), goat.Int(14), goat.Float64(-129), goat.Int(15)}),
+			goat.Float64(math.Copysign(0, -1)),
 			strct(), fn()}
 	}
 	type rule struct {
@@ -249,7 +253,7 @@ func (c *Ctx) c02Rules() error {
 					case "CONST", "GLOBALGET", "GETATTR", "SETATTR":
 						a = Pick(rr, gidx)
 					case "PUSH", "INCDEC":
-						a = Pick(rr, []int{0, 1, -1, 2, 200, -129})
+						a = Pick(rr, []int{0, 1, -1, 2, 200, -129, 3000000000})
 					case "CALL":
 						a, b = rr.Intn(3), rr.Intn(2)
 					case "JUMP":
@@ -259,6 +263,9 @@ func (c *Ctx) c02Rules() error {
 				}
 				if rl.rhs == "LOCALINCDEC" {
 					ins[2].A = ins[0].A
+				}
+				if len(rl.lhs) == 2 && rl.lhs[0] == "PUSH" && rl.lhs[1] == "SUB" && ins[0].A == 0 {
+					ins[0].A = 3 // the rule's guard: PUSH 0; SUB is left alone (x - 0 is not x + 0 for -0.0)
 				}
 				prog := ins
 				if fused {
@@ -379,6 +386,10 @@ func (c *Ctx) c02OnOff() error {
 		"func f() int { m := map[string]int{\"a\": 1}; m[\"a\"] = 5; return m[\"a\"] }; y := f(); y",
 		"func f() int { x := 0; for i := 0; i < 10; i++ { if i == 5 { continue }; if i == 8 { break }; x += i }; return x }; y := f(); y",
 		"func f() int { a := 7; b := 0; return a / b }; y := f(); y",
+		"func f() int { m := map[uint]int{3000000000: 7}; return m[3000000000] }; y := f(); y",
+		"func f() int { m := map[float64]int{}; m[3000000000] = 7; k := float64(3000000000); return m[k] }; y := f(); y",
+		"func f() float64 { z := 0.0; z = -z; w := z - 0; return 1 / w }; y := f(); y",
+		"func f() float64 { z := 0.0; z = -z; z -= 0; v := z + 0; return 1/z + 1/v }; y := f(); y",
 	}
 	inputs = append(corpus, inputs...)
 	nprog := 400
